@@ -83,6 +83,11 @@ fn norm_tokens(s: &str) -> String {
     s.parse::<proc_macro2::TokenStream>().map(|t| t.into_iter().map(|x| x.to_string() + " ").collect::<String>().trim().to_string()).unwrap_or_else(|_| s.to_string())
 }
 
+/// the non-blank description the document gives component `name`, if any
+fn described(spec: &Spec, name: &str) -> Option<String> {
+    spec.components.iter().find(|(n, _)| n == name).and_then(|(_, s)| s.descr.clone()).filter(|d| !d.trim().is_empty())
+}
+
 pub fn judge_files(spec: &Spec, cfg: &Cfg, h: &HirSpec, files: &Tree) -> Vec<Finding> {
     let mut out = vec![];
     let parse = |p: &str| -> Option<syn::File> { files.get(p).and_then(|c| syn::parse_file(&String::from_utf8_lossy(c)).ok()) };
@@ -206,10 +211,22 @@ pub fn judge_files(spec: &Spec, cfg: &Cfg, h: &HirSpec, files: &Tree) -> Vec<Fin
                     continue;
                 };
                 check_derives(&format!("newtype {}", ident), derives_of(&s.attrs), &[vec!["Debug", "Clone", "Serialize", "Deserialize"], vec!["Debug", "Clone", "Serialize", "Deserialize", "Default"]], &mut out);
+                // C17 "a schema's description documents its type", judged from the DOCUMENT
+                if let Some(d) = described(spec, name) {
+                    if doc_of(&s.attrs).map(|x| dn(&x)) != Some(dn(&d)) {
+                        out.push(f("C17", "alias_doc_dropped", format!("tuple struct {}: description {:?} of the schema is not its doc comment ({:?})", ident, d, doc_of(&s.attrs))));
+                    }
+                }
             }
             Record::TypeAlias(..) => {
-                if !file.items.iter().any(|i| matches!(i, Item::Type(t) if t.ident == ident)) {
+                let Some(Item::Type(t)) = file.items.iter().find(|i| matches!(i, Item::Type(t) if t.ident == ident)) else {
                     out.push(f("C04", "", format!("{}: type alias {} not found", path, ident)));
+                    continue;
+                };
+                if let Some(d) = described(spec, name) {
+                    if doc_of(&t.attrs).map(|x| dn(&x)) != Some(dn(&d)) {
+                        out.push(f("C17", "alias_doc_dropped", format!("type alias {}: description {:?} of the schema is not its doc comment ({:?})", ident, d, doc_of(&t.attrs))));
+                    }
                 }
             }
         }
